@@ -12,7 +12,7 @@ from vlib import util as U
 from props.c09 import (H, make_points, shaped, point_shapes, array_shapes, shape_label, shape_tuple, size_of, ab_pairs, ab_class, orders, n_class,
                        variants, var_of, var_labels, present, as32, contain, rtol_of, reuse_check, call, settle_kind, HERMITES, nm_pairs as nm_pairs_ext,
                        with_big_shapes, q2d_contain, NEAR_RELS, NEAR_BASES, CHEBY_PAIRS, near_special_pairs, order_as, params_as, prefail, settle_sum_kind,
-                       coefs_of, BIG_SHAPES, ab_pairs9, ab_class9)
+                       coefs_of, BIG_SHAPES, ab_pairs9, ab_class9, single_session, single, session_close, session_of, edit_check, now64, editable)
 
 RULE = ("Values: Hypothesis draws family, order (0..3 forced, otherwise uniform to 40 quick / 120 thorough; Zernike n to 30 / 60, "
         "Dickson n to 40 / 80, Q2d n to 12, |m| to 10; Gram matrices to N = 40 / 120 for the Jacobi family - capped at 40 when a weight "
@@ -65,6 +65,14 @@ RULE = ("Values: Hypothesis draws family, order (0..3 forced, otherwise uniform 
         "(Chebyshev 3rd / 4th kind and relatives) and alpha = beta as classes of their own.  Orders are also handed over as np.int64 (what an np.arange "
         "loop yields), shape parameters as np.float64 scalars; one case in four makes a request that fails (evaluation points None, exception caught by "
         "the caller) immediately before the checked call.  "
+        "History classes shared with C09 (sub-dict v): the float32 evaluation that precedes the checked one is made with single-precision data under the "
+        "double-precision configuration, or as the start of a session under prysm.conf.config.precision = 32 (single-precision data, or the very argument objects; "
+        "one time in four on cold memo tables, vlib.util.cold_start()): the double-precision answer that follows is also compared at RT / 10 (bucket "
+        "...:after-single-precision-session) for every evaluator that runs through memoised tables (recurrence coefficients, f / g / h of Forbes, the change of basis "
+        "of list / tuple / ndarray coefficients in the sum evaluators); nothing is asserted about the accuracy of the request made under the single-precision "
+        "configuration.  After the checked call the caller edits its coordinate arrays IN PLACE (x -> mid + (x - mid)/2, r *= 1/2, t += 0.375; u^2 kept in step with u) "
+        "and calls again with the same array objects - every single-order and sequence evaluator, one- and two-index families, jacobi.weight, the sum evaluators -: "
+        "the result must be the polynomial at the values the arrays hold now (...:coordinates-edited-in-place).  "
         "Non-trivial = order >= 6 or non-tabulated shape parameter or scalar / N-D points or a Gram entry with m != n or a non-default presentation "
         "of the arguments.")
 ASSUMPTIONS = [
@@ -78,6 +86,9 @@ ASSUMPTIONS = [
 ]
 
 RT = 1e-8   # relative to the largest |reference| over the drawn points; observed <= 1e-12 up to n = 200
+# after a session that started under the single-precision configuration the double-precision values are compared at RT * SESSION_FACTOR (a remnant of
+# single precision in a memoised table is 1e-8 .. 1e-7 of the scale, growing with the order)
+SESSION_FACTOR = 1e-1
 
 
 def gram_assert(ctx, G, want, tol, describe):
@@ -178,20 +189,23 @@ def check_values(case, ctx):
            (fam == 'laguerre' and p[0] not in (0, 0.5, 1)) or v['n_as'] != 'int' or (p and v['p_as'] != 'python'))
     narg, parg = order_as(n, v), params_as(p, v)       # what is handed over; n and p stay the plain numbers the reference is built from
     if v['pre32']:
-        g32 = call(ctx, 'float32', fn, n, *p, as32(xarg))
+        with single_session(ctx, v):
+            g32 = call(ctx, 'float32', fn, n, *p, single(v, xarg))
         U.check_shape(g32, shape_tuple(shape), fam + ':float32', '%s(%d, %s, float32 x)' % (fam, n, p))
     want_full = ref_value(fam, n, p, base)
     scale = float(np.max(np.abs(want_full)))
     want = shaped(want_full, shape)
     bucket = '%s:%s' % (fam, n_class(n))
     rt = rtol_of(v, n, RT)
+    what = '%s(n=%d, params=%s, x: %s %s) vs scipy.special' % (fam, n, p, v['xkind'], shape_label(shape))
 
-    def verify(got, bucket):
+    def verify(got, bucket, want=want):
         U.check_shape(got, np.shape(want), bucket, '%s(%d, %s, x) for x of shape %s' % (fam, n, p, shape))
-        U.check_close(got, want, rt, bucket, '%s(n=%d, params=%s, x: %s %s) vs scipy.special' % (fam, n, p, v['xkind'], shape_label(shape)), atol=rt * scale)
+        U.check_close(got, want, rt, bucket, what, atol=rt * scale)
     prefail(ctx, v, fn, narg, *parg, None)
     got = call(ctx, n_class(n), fn, narg, *parg, xarg)
     verify(got, bucket)
+    session_close(ctx, v, got, want, rt, bucket, what, scale, factor=SESSION_FACTOR)
     n2 = n + 1 if not (fam in HERMITES and v['xkind'] == 'int' and n + 1 > 15) else n - 1
     reuse_check(ctx, v, bucket, got, (xarg,), lambda: ctx.call(fn, n2, *p, xarg), lambda: ctx.call(fn, narg, *parg, xarg), verify)
     if fam in ('cheby1', 'cheby2', 'cheby3', 'cheby4'):
@@ -205,6 +219,7 @@ def check_values(case, ctx):
         mone = {'cheby1': (-1.0) ** n, 'cheby2': (-1.0) ** n * (n + 1), 'cheby3': (-1.0) ** n * (2 * n + 1), 'cheby4': (-1.0) ** n}[fam]
         ends = ctx.call(fn, n, np.array([1.0, -1.0]))
         U.check_close(ends, np.array([one, mone]), 1e-9, bucket + ':endpoints', '%s(n=%d) at x=+1,-1' % (fam, n))
+    edit_check(ctx, v, bucket, [(xarg, lo, hi, False)], lambda: ctx.call(fn, narg, *parg, xarg), lambda g, b_: verify(g, b_, want=ref_value(fam, n, p, now64(xarg))))
 
 
 # ---- Dickson ---------------------------------------------------------------------------------------
@@ -252,19 +267,22 @@ def check_dickson(case, ctx):
     nt = var_labels(ctx, v, shape)
     ctx.nt(nt or n >= 6 or a not in (-1, 0, 1) or isinstance(shape, str) or len(shape) != 1)
     if v['pre32']:
-        call(ctx, 'float32', fn, n, a, as32(xarg))
+        with single_session(ctx, v):
+            call(ctx, 'float32', fn, n, a, single(v, xarg))
     want_full = dickson_exact(kind, n, a, base)
     want = shaped(want_full, shape)
     bucket = 'dickson%d:%s' % (kind, n_class(n))
     rt = rtol_of(v, n, RT)
 
-    def verify(got, bucket):
+    def verify(got, bucket, want=want):
         U.check_shape(got, np.shape(want), bucket, 'dickson%d(%d, %r, x) for x of shape %s' % (kind, n, a, shape))
         U.check_close(got, want, rt, bucket, 'dickson%d(n=%d, alpha=%r, x: %s %s) vs exact closed sum' % (kind, n, a, v['xkind'], shape_label(shape)),
                       atol=rt * float(np.max(np.abs(want_full))))
     got = call(ctx, n_class(n), fn, n, a, xarg)
     verify(got, bucket)
     reuse_check(ctx, v, bucket, got, (xarg,), lambda: ctx.call(fn, n + 1 if n < 20 else n - 1, a, xarg), lambda: ctx.call(fn, n, a, xarg), verify)
+    edit_check(ctx, v, bucket, [(xarg, -3.0, 3.0, False)], lambda: ctx.call(fn, n, a, xarg),
+               lambda g, b_: verify(g, b_, want=dickson_exact(kind, n, a, now64(xarg)).reshape(np.shape(xarg))))
     if kind == 1:
         r = U.rng_of(case['seed'], 9)
         u = r.uniform(0.5, 2.0, 8) * r.choice([-1.0, 1.0], 8)
@@ -340,15 +358,18 @@ def check_xy(case, ctx):
         yarg = xarg if alias else present(y, shape, v, layout=v['layout2'])
         want = ipow(x, m) * ipow(y, n)
 
-        def verify(got, bucket):
+        def verify(got, bucket, want=want):
             U.check_shape(got, np.shape(want), bucket, 'xy(%d,%d) %s' % (m, n, grid))
             U.check_close(got, want, rt, bucket, 'xy(m=%d, n=%d, x: %s) vs x^m y^n' % (m, n, kind))
         if v['pre32']:
-            x32 = as32(xarg)
-            call(ctx, 'float32', xy, m, n, x32, x32 if alias else as32(yarg), **kw)
+            with single_session(ctx, v):
+                x32 = single(v, xarg)
+                call(ctx, 'float32', xy, m, n, x32, x32 if alias else single(v, yarg), **kw)
         got = call(ctx, grid + (':x-is-y' if alias else ''), xy, m, n, xarg, yarg, **kw)
         verify(got, ('xy:x-is-y' if alias else 'xy') + ('' if cart_as == 'bool' else ':cartesian_grid-given-as-' + cart_as))
         reuse_check(ctx, v, 'xy', got, (xarg, yarg), lambda: ctx.call(xy, n + 1, m, xarg, yarg, **kw), lambda: ctx.call(xy, m, n, xarg, yarg, **kw), verify)
+        edit_check(ctx, v, 'xy', [(xarg, -2.0, 2.0, False), (yarg, -2.0, 2.0, False)], lambda: ctx.call(xy, m, n, xarg, yarg, **kw),
+                   lambda g, b_: verify(g, b_, want=ipow(now64(xarg), m) * ipow(now64(yarg), n)))
     else:
         a, b, c, shape = case['a'], case['b'], case['c'], case['shape']
         ctx.label('hopkins', 'a<0' if a < 0 else 'a=0' if a == 0 else 'a>0', shape_label(shape), '|a|>6' if abs(a) > 6 else '|a|<=6')
@@ -375,15 +396,23 @@ def check_xy(case, ctx):
         want = az * ipow(rr, b) * ipow(Hh, c)
         rth = max(rt, 1e-5 * (1 + abs(a))) if kind == 'f32' else rt      # float32 angle: |a| * eps32 * |t| in the argument of cos / sin
 
-        def verify(got, bucket):
+        def verify(got, bucket, want=want):
             U.check_shape(got, np.shape(want), bucket, 'hopkins(%d,%d,%d)' % (a, b, c))
             U.check_close(got, want, rth, bucket, 'hopkins(a=%d, b=%d, c=%d, r: %s) vs cos/sin(|a| t) r^b H^c' % (a, b, c, kind), atol=1e-15 if kind != 'f32' else rth)
         if v['pre32']:
-            call(ctx, 'float32', hopkins, a, b, c, as32(rarg), as32(targ), as32(harg))
+            with single_session(ctx, v):
+                r32 = single(v, rarg)
+                call(ctx, 'float32', hopkins, a, b, c, r32, single(v, targ), r32 if alias else single(v, harg))
         got = call(ctx, ('a<0' if a < 0 else 'a>=0') + (':r-is-H' if alias else ''), hopkins, a, b, c, rarg, targ, harg)
         verify(got, 'hopkins:r-is-H' if alias else 'hopkins')
         reuse_check(ctx, v, 'hopkins', got, (rarg, targ, harg), lambda: ctx.call(hopkins, -a, c, b + 1, rarg, targ, harg),
                     lambda: ctx.call(hopkins, a, b, c, rarg, targ, harg), verify)
+
+        def want_now():
+            tn = now64(targ)
+            return (np.sin(abs(a) * tn) if a < 0 else np.cos(a * tn)) * ipow(now64(rarg), b) * ipow(now64(harg), c)
+        edit_check(ctx, v, 'hopkins', [(rarg, 0.0, 1.0, False), (targ, -math.pi, 2 * math.pi, True), (harg, -1.0, 1.0, False)],
+                   lambda: ctx.call(hopkins, a, b, c, rarg, targ, harg), lambda g, b_: verify(g, b_, want=want_now()))
 
 
 # a boolean option as callers actually hold it: the object True / False, a numpy bool (an element of a boolean array, the result of a
@@ -463,8 +492,9 @@ def check_zernike(case, ctx):
     nt = var_labels(ctx, v, shape)
     ctx.nt(nt or n >= 6 or isinstance(shape, str) or len(shape) != 1 or alias or norm_as != 'bool')
     if v['pre32']:
-        r32 = as32(rarg)
-        call(ctx, 'float32', zernike_nm, n, m, r32, r32 if alias else as32(targ), norm=norm)
+        with single_session(ctx, v):
+            r32 = single(v, rarg)
+            call(ctx, 'float32', zernike_nm, n, m, r32, r32 if alias else single(v, targ), norm=norm)
     az = np.ones_like(tbase) if m == 0 else np.sin(am * tbase) if m < 0 else np.cos(m * tbase)
     N = math.sqrt(2 * (n + 1) / (2 if m == 0 else 1)) if norm else 1.0
     want_full = N * zernike_radial_exact(n, am, rbase) * az
@@ -472,15 +502,25 @@ def check_zernike(case, ctx):
     bucket = 'zernike_nm:%s%s%s' % ('m=0' if m == 0 else 'm!=0', ':r-is-t' if alias else '', '' if norm_as == 'bool' else ':norm-given-as-' + norm_as)
     rt = rtol_of(v, n, RT)
 
-    def verify(got, bucket):
+    what = 'zernike_nm(n=%d, m=%d, norm=%r, r: %s %s) vs explicit radial sum' % (n, m, narg, kind, shape_label(shape))
+
+    def verify(got, bucket, want=want):
         U.check_shape(got, np.shape(want), bucket, 'zernike_nm(%d,%d) for r of shape %s' % (n, m, shape))
-        U.check_close(got, want, rt, bucket, 'zernike_nm(n=%d, m=%d, norm=%r, r: %s %s) vs explicit radial sum' % (n, m, narg, kind, shape_label(shape)), atol=rt * N)
+        U.check_close(got, want, rt, bucket, what, atol=rt * N)
     ctx.label('n-as:' + v['n_as'])
     prefail(ctx, v, zernike_nm, n, m, None, None, norm=narg)
     got = call(ctx, 'm=0' if m == 0 else 'm!=0', zernike_nm, order_as(n, v), order_as(m, v), rarg, targ, norm=narg)
     verify(got, bucket)
+    session_close(ctx, v, got, want, rt, bucket, what, N, factor=SESSION_FACTOR)
     reuse_check(ctx, v, bucket, got, (rarg, targ), lambda: ctx.call(zernike_nm, n + 2, m, rarg, targ, norm=flag_as(not norm, norm_as)),
                 lambda: ctx.call(zernike_nm, n, m, rarg, targ, norm=narg), verify)
+
+    def want_now():
+        rn, tn = now64(rarg), now64(targ)
+        azn = np.ones_like(tn) if m == 0 else np.sin(am * tn) if m < 0 else np.cos(m * tn)
+        return N * zernike_radial_exact(n, am, rn).reshape(rn.shape) * azn
+    edit_check(ctx, v, bucket, [(rarg, 0.0, 1.0, False), (targ, -math.pi, 2 * math.pi, not alias)], lambda: ctx.call(zernike_nm, n, m, rarg, targ, norm=narg),
+               lambda g, b_: verify(g, b_, want=want_now()))
     zn = ctx.call(zernike_norm, n, m)
     ctx.require(abs(zn - math.sqrt(2 * (n + 1) / (2 if m == 0 else 1))) <= 1e-12 * zn, 'zernike_norm',
                 'zernike_norm(%d,%d) = %r' % (n, m, zn))
@@ -673,11 +713,12 @@ def check_weight(case, ctx):
     var_labels(ctx, v, shape)
     ctx.nt(True)
     if v['pre32']:
-        call(ctx, 'float32', weight, aarg, barg, as32(xarg))
+        with single_session(ctx, v):
+            call(ctx, 'float32', weight, aarg, barg, single(v, xarg))
     want = weight_ref(a, b, x)
     rt = 1e-4 if v['xkind'] == 'f32' else 1e-12       # observed 2e-7 / 4e-16 on the unchanged code
 
-    def verify(got, bucket):
+    def verify(got, bucket, want=want, x=x):
         got = np.asarray(got)
         U.check_shape(got, shape_tuple(shape), bucket, 'weight(%r, %r, x) for x of shape %s' % (a, b, shape))
         bad = ~((np.abs(got - want) <= rt * np.abs(want)) | (got == want))
@@ -689,6 +730,8 @@ def check_weight(case, ctx):
     got = call(ctx, sym, weight, aarg, barg, xarg)
     verify(got, bucket)
     reuse_check(ctx, v, bucket, got, (xarg,), lambda: ctx.call(weight, b + 1, a, xarg), lambda: ctx.call(weight, aarg, barg, xarg), verify)
+    edit_check(ctx, v, bucket, [(xarg, -1.0, 1.0, False)], lambda: ctx.call(weight, aarg, barg, xarg),
+               lambda g, b_: verify(g, b_, want=weight_ref(a, b, now64(xarg)), x=now64(xarg)))
 
 
 # ---- Forbes polynomials -------------------------------------------------------------------------------------
@@ -727,18 +770,26 @@ def check_q_values(case, ctx):
         ctx.label(n_class(n))
         ctx.nt(nt or n >= 6 or isinstance(shape, str) or len(shape) != 1)
         if v['pre32']:
-            call(ctx, 'float32', Qcon, n, as32(uarg))
+            with single_session(ctx, v):
+                call(ctx, 'float32', Qcon, n, single(v, uarg))
         want_full = base ** 4 * sps.eval_jacobi(n, 0, 4, 2 * base * base - 1)
         want = shaped(want_full, shape)
         rt = rtol_of(v, n, RT)
+        what = 'Qcon(n=%d, u: %s %s) vs u^4 P_n^(0,4)(2u^2-1)' % (n, kind, shape_label(shape))
 
-        def verify(got, bucket):
+        def verify(got, bucket, want=want):
             U.check_shape(got, np.shape(want), 'Qcon', 'Qcon(%d, u) for u of shape %s' % (n, shape))
-            U.check_close(got, want, rt, bucket, 'Qcon(n=%d, u: %s %s) vs u^4 P_n^(0,4)(2u^2-1)' % (n, kind, shape_label(shape)), atol=rt * float(np.max(np.abs(want_full))))
+            U.check_close(got, want, rt, bucket, what, atol=rt * float(np.max(np.abs(want_full))))
         prefail(ctx, v, Qcon, n, None)
         got = call(ctx, n_class(n), Qcon, order_as(n, v), uarg)
         verify(got, 'Qcon:' + n_class(n))
+        session_close(ctx, v, got, want, rt, 'Qcon:' + n_class(n), what, float(np.max(np.abs(want_full))), factor=SESSION_FACTOR)
         reuse_check(ctx, v, 'Qcon:' + n_class(n), got, (uarg,), lambda: ctx.call(Qcon, n + 1, uarg), lambda: ctx.call(Qcon, n, uarg), verify)
+
+        def want_now():
+            un = now64(uarg)
+            return un ** 4 * sps.eval_jacobi(n, 0, 4, 2 * un * un - 1)
+        edit_check(ctx, v, 'Qcon:' + n_class(n), [(uarg, 0.0, 1.0, False)], lambda: ctx.call(Qcon, n, uarg), lambda g, b_: verify(g, b_, want=want_now()))
     elif fn == 'Qbfs':
         n = case['n5']
         ctx.label('n=%d' % n)
@@ -748,15 +799,18 @@ def check_q_values(case, ctx):
         want = shaped(want_full, shape)
         rt = rtol_of(v, n, 1e-10)
         if v['pre32']:
-            call(ctx, 'float32', Qbfs, n, as32(uarg))
-            call(ctx, 'float32', Qbfs, case['n'], as32(uarg))
+            with single_session(ctx, v):
+                call(ctx, 'float32', Qbfs, n, single(v, uarg))
+                call(ctx, 'float32', Qbfs, case['n'], single(v, uarg))
+        what = 'Qbfs(n=%d, u: %s %s) vs u^2(1-u^2) times Forbes tabulated Q_%d^bfs(u^2)' % (n, kind, shape_label(shape), n)
 
-        def verify(got, bucket):
+        def verify(got, bucket, want=want):
             U.check_shape(got, np.shape(want), 'Qbfs', 'Qbfs(%d, u) for u of shape %s' % (n, shape))
-            U.check_close(got, want, rt, bucket, 'Qbfs(n=%d, u: %s %s) vs u^2(1-u^2) times Forbes tabulated Q_%d^bfs(u^2)' % (n, kind, shape_label(shape), n), atol=rt)
+            U.check_close(got, want, rt, bucket, what, atol=rt)
         prefail(ctx, v, Qbfs, n, None)
         got = call(ctx, 'n<=5', Qbfs, order_as(n, v), uarg)
         verify(got, 'Qbfs:table')
+        session_close(ctx, v, got, want, rt, 'Qbfs:table', what, 1.0, factor=SESSION_FACTOR)       # tabulated polynomials: unchanged code <= 2e-14
         # higher orders: same value whatever the shape / dtype / layout of the argument
         n2 = case['n']
         flat = ctx.call(Qbfs, n2, base.copy())
@@ -769,6 +823,11 @@ def check_q_values(case, ctx):
         got2 = call(ctx, 'n>5', Qbfs, n2, uarg)
         verify2(got2, 'Qbfs:shape-dependence')
         reuse_check(ctx, v, 'Qbfs', got2, (uarg,), lambda: ctx.call(Qbfs, n2 + 1, uarg), lambda: ctx.call(Qbfs, n2, uarg), verify2)
+
+        def want_now():
+            xn = now64(uarg) ** 2
+            return xn * (1 - xn) * qbfs_table(n, xn)
+        edit_check(ctx, v, 'Qbfs:table', [(uarg, 0.0, 1.0, False)], lambda: ctx.call(Qbfs, n, uarg), lambda g, b_: verify(g, b_, want=want_now()))
     else:
         n, m = case['nq'], case['m']
         ctx.label('m=0' if m == 0 else 'm<0' if m < 0 else 'm>0', '|m|>10' if abs(m) > 10 else '|m|<=10', 'n>12' if n > 12 else 'n<=12')
@@ -780,19 +839,23 @@ def check_q_values(case, ctx):
             t, tbase, targ = u, base, uarg
         ctx.label('u-is-t' if alias else 'u-and-t-separate')
         if v['pre32']:
-            u32 = as32(uarg)
-            call(ctx, 'float32', Q2d, n, m, u32, u32 if alias else as32(targ))
+            with single_session(ctx, v):
+                u32 = single(v, uarg)
+                call(ctx, 'float32', Q2d, n, m, u32, u32 if alias else single(v, targ))
         flat = ctx.call(Q2d, n, m, base.copy(), tbase.copy())
         rt = rtol_of(v, n + abs(m), 1e-13)
 
-        def verify(got, bucket):
-            U.check_shape(got, np.shape(shaped(flat, shape)), 'Q2d', 'Q2d(%d,%d) for u of shape %s' % (n, m, shape))
-            U.check_close(got, shaped(flat, shape), rt, bucket, 'Q2d(n=%d, m=%d) on %s %s vs the same points as a float64 vector' % (n, m, kind, shape_label(shape)),
+        def verify(got, bucket, want=None):
+            want = shaped(flat, shape) if want is None else want
+            U.check_shape(got, np.shape(want), 'Q2d', 'Q2d(%d,%d) for u of shape %s' % (n, m, shape))
+            U.check_close(got, want, rt, bucket, 'Q2d(n=%d, m=%d) on %s %s vs the same points as a float64 vector' % (n, m, kind, shape_label(shape)),
                           atol=rt * float(np.max(np.abs(flat))))
         prefail(ctx, v, Q2d, n, m, None, None)
         got = call(ctx, ('m=0' if m == 0 else 'm!=0') + (':u-is-t' if alias else ''), Q2d, order_as(n, v), order_as(m, v), uarg, targ)
         verify(got, 'Q2d:shape-dependence' + (':u-is-t' if alias else ''))
         reuse_check(ctx, v, 'Q2d', got, (uarg, targ), lambda: ctx.call(Q2d, n + 1, -m, uarg, targ), lambda: ctx.call(Q2d, n, m, uarg, targ), verify)
+        edit_check(ctx, v, 'Q2d', [(uarg, 0.0, 1.0, False), (targ, -math.pi, 2 * math.pi, not alias)], lambda: ctx.call(Q2d, n, m, uarg, targ),
+                   lambda g, b_: verify(g, b_, want=np.asarray(ctx.call(Q2d, n, m, now64(uarg).ravel(), now64(targ).ravel())).reshape(np.shape(uarg))))
         if m == 0:
             U.check_close(flat, ctx.call(Qbfs, n, base.copy()), 1e-13, 'Q2d:m=0', 'Q2d(n,0) must be Qbfs(n)')
         else:
@@ -1159,26 +1222,32 @@ def check_seq(case, ctx):
             # a single-precision evaluation of the same orders first (same process): it is checked to single precision, and it
             # must leave nothing behind that degrades the double-precision evaluation that follows
             ctx.label('after-float32-call')
-            g32 = np.asarray(call(ctx, 'float32', seqfn, nsarg, *p, as32(xarg)))
+            v['pre32'] = True
+            with single_session(ctx, v):
+                g32 = np.asarray(call(ctx, 'float32', seqfn, nsarg, *p, single(v, xarg)))
             U.check_shape(g32, full, fam + '_seq:float32')
         wants = [(ref_value(fam, n, p, x), float(np.max(np.abs(ref_value(fam, n, p, np.linspace(lo, hi, 9)))))) for n in ns]
 
-        def verify(got, suffix):
+        def verify(got, suffix, wants=wants, session=False):
             got = np.asarray(got)
             U.check_shape(got, full, fam + '_seq' + suffix)
             for k, n in enumerate(ns):
                 rt = rtol_of(v, n, RT)
-                U.check_close(got[k], wants[k][0], rt, '%s_seq:%s%s' % (fam, n_class(n), suffix), '%s_seq(%s, %s, x: %s %s)[%d] (order %d) vs scipy.special' % (
-                    fam, ns, p, v['xkind'], shape_label(shape), k, n), atol=rt * wants[k][1])
+                what = '%s_seq(%s, %s, x: %s %s)[%d] (order %d) vs scipy.special' % (fam, ns, p, v['xkind'], shape_label(shape), k, n)
+                U.check_close(got[k], wants[k][0], rt, '%s_seq:%s%s' % (fam, n_class(n), suffix), what, atol=rt * wants[k][1])
+                if session:
+                    session_close(ctx, v, got[k], wants[k][0], rt, '%s_seq:%s%s' % (fam, n_class(n), suffix), what, wants[k][1], factor=SESSION_FACTOR)
         parg = params_as(p, v)
         if p:
             ctx.label('params-as:' + v['p_as'])
         prefail(ctx, v, seqfn, nsarg, *parg, None)
         got = call(ctx, 'seq', seqfn, nsarg, *parg, xarg)
-        verify(got, '')
+        verify(got, '', session=True)
         ns2 = [n + 1 for n in ns][:-1] or [ns[0] + 1]
         reuse_check(ctx, v, fam + '_seq', got, (xarg, nsarg), lambda: ctx.call(seqfn, ns2, *p, xarg), lambda: ctx.call(seqfn, nsarg, *p, xarg),
                     lambda g, b: verify(g, b[len(fam + '_seq'):]))
+        edit_check(ctx, v, fam + '_seq', [(xarg, lo, hi, False)], lambda: ctx.call(seqfn, nsarg, *parg, xarg),
+                   lambda g, b: verify(g, b[len(fam + '_seq'):], wants=[(ref_value(fam, n, p, now64(xarg)), wants[k][1]) for k, n in enumerate(ns)]))
         return
     if kind == 'zernike':
         nms = [list(e) for e in case['nms']]
@@ -1196,27 +1265,36 @@ def check_seq(case, ctx):
         nmarg = [tuple(e) for e in nms] if v['ns_as'] == 'list' else tuple(tuple(e) for e in nms) if v['ns_as'] == 'tuple' else np.array(nms)
         full = (len(nms),) + shape_tuple(shape)
         if v['pre32']:
-            call(ctx, 'float32', P.zernike_nm_seq, nmarg, as32(rarg), as32(targ), norm=narg)
-        wants = []
-        for n, m in nms:
-            am = abs(m)
-            az = np.ones_like(tt) if m == 0 else np.sin(am * tt) if m < 0 else np.cos(m * tt)
-            N = math.sqrt(2 * (n + 1) / (2 if m == 0 else 1)) if norm else 1.0
-            wants.append((N * zernike_radial_exact(n, am, rr).reshape(rr.shape) * az, N))
+            with single_session(ctx, v):
+                call(ctx, 'float32', P.zernike_nm_seq, nmarg, single(v, rarg), single(v, targ), norm=narg)
 
-        def verify(got, suffix):
+        def zwants(rr, tt):
+            out = []
+            for n, m in nms:
+                am = abs(m)
+                az = np.ones_like(tt) if m == 0 else np.sin(am * tt) if m < 0 else np.cos(m * tt)
+                N = math.sqrt(2 * (n + 1) / (2 if m == 0 else 1)) if norm else 1.0
+                out.append((N * zernike_radial_exact(n, am, rr).reshape(rr.shape) * az, N))
+            return out
+        wants = zwants(rr, tt)
+
+        def verify(got, suffix, wants=wants, session=False):
             got = np.asarray(got)
             U.check_shape(got, full, 'zernike_nm_seq' + suffix)
             for k, (n, m) in enumerate(nms):
                 rt = rtol_of(v, n, RT)
-                U.check_close(got[k], wants[k][0], rt, 'zernike_nm_seq:%s%s%s' % ('norm' if norm else 'no-norm', '' if norm_as == 'bool' else ':given-as-' + norm_as, suffix),
-                              'zernike_nm_seq(%s, norm=%r, r: %s %s)[%d] = (n=%d, m=%d) vs explicit radial sum' % (nms, narg, v['xkind'], shape_label(shape), k, n, m),
-                              atol=rt * wants[k][1])
+                bucket = 'zernike_nm_seq:%s%s%s' % ('norm' if norm else 'no-norm', '' if norm_as == 'bool' else ':given-as-' + norm_as, suffix)
+                what = 'zernike_nm_seq(%s, norm=%r, r: %s %s)[%d] = (n=%d, m=%d) vs explicit radial sum' % (nms, narg, v['xkind'], shape_label(shape), k, n, m)
+                U.check_close(got[k], wants[k][0], rt, bucket, what, atol=rt * wants[k][1])
+                if session:
+                    session_close(ctx, v, got[k], wants[k][0], rt, bucket, what, wants[k][1], factor=SESSION_FACTOR)
         got = call(ctx, 'seq', P.zernike_nm_seq, nmarg, rarg, targ, norm=narg)
-        verify(got, '')
+        verify(got, '', session=True)
         other = [tuple(e) for e in reversed(nms)] + [(4, 2)]
         reuse_check(ctx, v, 'zernike_nm_seq', got, (rarg, targ), lambda: ctx.call(P.zernike_nm_seq, other, rarg, targ, norm=flag_as(not norm, norm_as)),
                     lambda: ctx.call(P.zernike_nm_seq, nmarg, rarg, targ, norm=narg), lambda g, b: verify(g, b[len('zernike_nm_seq'):]))
+        edit_check(ctx, v, 'zernike_nm_seq', [(rarg, 0.0, 1.0, False), (targ, -math.pi, math.pi, True)], lambda: ctx.call(P.zernike_nm_seq, nmarg, rarg, targ, norm=narg),
+                   lambda g, b: verify(g, b[len('zernike_nm_seq'):], wants=zwants(now64(rarg), now64(targ))))
         return
     if kind == 'q2d':
         nms = [[n, m] for n, m in case['nms']]
@@ -1229,11 +1307,12 @@ def check_seq(case, ctx):
         full = (len(nms),) + shape_tuple(shape)
         nmarg = [tuple(e) for e in nms]
         if v['pre32']:
-            call(ctx, 'float32', P.Q2d_seq, nmarg, as32(uarg), as32(targ))
+            with single_session(ctx, v):
+                call(ctx, 'float32', P.Q2d_seq, nmarg, single(v, uarg), single(v, targ))
         # the single-order routine is pinned by q2d_gram (uniqueness of the orthonormal slope basis) and q_values in this property
         wants = [np.asarray(ctx.call(P.Q2d, n, m, uu, tt)) for n, m in nms]
 
-        def verify(got, suffix):
+        def verify(got, suffix, wants=wants):
             got = np.asarray(got)
             U.check_shape(got, full, 'Q2d_seq' + suffix)
             for k, (n, m) in enumerate(nms):
@@ -1245,6 +1324,8 @@ def check_seq(case, ctx):
         other = [(n + 1, -m) for n, m in nms][:-1] + [(0, 3)]
         reuse_check(ctx, v, 'Q2d_seq', got, (uarg, targ), lambda: ctx.call(P.Q2d_seq, other, uarg, targ), lambda: ctx.call(P.Q2d_seq, nmarg, uarg, targ),
                     lambda g, b: verify(g, b[len('Q2d_seq'):]))
+        edit_check(ctx, v, 'Q2d_seq', [(uarg, 0.05, 1.0, False), (targ, -math.pi, math.pi, True)], lambda: ctx.call(P.Q2d_seq, nmarg, uarg, targ),
+                   lambda g, b: verify(g, b[len('Q2d_seq'):], wants=[np.asarray(ctx.call(P.Q2d, n, m, now64(uarg), now64(targ))) for n, m in nms]))
         return
     ns = case['ns']
     v = var_of(case, ('f64', 'f32', 'complex'))
@@ -1255,22 +1336,29 @@ def check_seq(case, ctx):
     full = (len(ns),) + shape_tuple(shape)
     seqfn, name = (P.Qcon_seq, 'Qcon_seq') if kind == 'qcon' else (P.Qbfs_seq, 'Qbfs_seq')
     if v['pre32']:
-        call(ctx, 'float32', seqfn, nsarg, as32(uarg))
-    if kind == 'qcon':
-        wants = [uu ** 4 * sps.eval_jacobi(n, 0, 4, 2 * uu * uu - 1) for n in ns]
-    else:
-        wants = [qbfs_table(n, uu * uu) * (uu * uu) * (1 - uu * uu) if n <= 5 else np.asarray(ctx.call(P.Qbfs, n, uu)) for n in ns]
+        with single_session(ctx, v):
+            call(ctx, 'float32', seqfn, nsarg, single(v, uarg))
 
-    def verify(got, suffix):
+    def qwants(uu):
+        if kind == 'qcon':
+            return [uu ** 4 * sps.eval_jacobi(n, 0, 4, 2 * uu * uu - 1) for n in ns]
+        return [qbfs_table(n, uu * uu) * (uu * uu) * (1 - uu * uu) if n <= 5 else np.asarray(ctx.call(P.Qbfs, n, uu)) for n in ns]
+    wants = qwants(uu)
+
+    def verify(got, suffix, wants=wants, session=False):
         got = np.asarray(got)
         U.check_shape(got, full, name + suffix)
         for k, n in enumerate(ns):
             rt = rtol_of(v, n, RT)
-            U.check_close(got[k], wants[k], rt, name + suffix, '%s(%s, u: %s %s)[%d] (order %d)' % (name, ns, v['xkind'], shape_label(shape), k, n), atol=rt)
+            what = '%s(%s, u: %s %s)[%d] (order %d)' % (name, ns, v['xkind'], shape_label(shape), k, n)
+            U.check_close(got[k], wants[k], rt, name + suffix, what, atol=rt)
+            if session and (kind == 'qcon' or n <= 5):      # independent references only (above n = 5 the reference is Qbfs itself)
+                session_close(ctx, v, got[k], wants[k], rt, name + suffix, what, 1.0, factor=SESSION_FACTOR)
     got = call(ctx, 'seq', seqfn, nsarg, uarg)
-    verify(got, '')
+    verify(got, '', session=True)
     ns2 = [n + 1 for n in ns][:-1] or [ns[0] + 1]
     reuse_check(ctx, v, name, got, (uarg, nsarg), lambda: ctx.call(seqfn, ns2, uarg), lambda: ctx.call(seqfn, nsarg, uarg), lambda g, b: verify(g, b[len(name):]))
+    edit_check(ctx, v, name, [(uarg, 0.0, 1.0, False)], lambda: ctx.call(seqfn, nsarg, uarg), lambda g, b: verify(g, b[len(name):], wants=qwants(now64(uarg))))
 
 
 # ---- the polynomials through the sum evaluators (one coefficient set), at every kind of evaluation point -------------------------
@@ -1341,6 +1429,18 @@ def check_sums(case, ctx):
         if use_buf == 'used':
             first(kw['alphas'])
     other = [0.5 - 0.25 * k for k in range(len(cs))]        # coefficients of the earlier user of the workspace: every order present
+    sqbuf = []
+
+    def sq():
+        """u^2 as the caller holds it: one array, kept in step with u in place"""
+        if not sqbuf:
+            sqbuf.append(xarg * xarg)
+        elif editable(sqbuf[0]):
+            np.multiply(xarg, xarg, out=sqbuf[0])
+        else:
+            sqbuf[0] = xarg * xarg
+        return sqbuf[0]
+    coords = [(xarg, lo, 1.0, False)]
     if is_jac:
         ctx.label(ab_class7(a, b), 'params-as:' + v['p_as'], 'alpha=-beta!=0' if a == -b and a != 0 else 'alpha=beta' if a == b else 'alpha!=+-beta')
         aarg, barg = params_as([a, b], v)
@@ -1348,45 +1448,81 @@ def check_sums(case, ctx):
         pcls = 'alpha=-beta!=0' if a == -b and a != 0 else 'alpha=beta' if a == b else 'general-parameters'
         what = '%s(s = %r at order %d of %d, a=%r, b=%r, x: %s %s)' % (fn, hot, n, len(cs), a, b, kind, shape_label(shape))
         if v['pre32']:
-            call(ctx, 'float32', P.jacobi_sum_clenshaw, carg, a, b, as32(xarg))
+            with single_session(ctx, v):
+                call(ctx, 'float32', getattr(P, fn), carg, a, b, single(v, xarg))
         prefail(ctx, v, getattr(P, fn), carg, aarg, barg, None)
         if fn == 'jacobi_sum_clenshaw':
             workspace(len(cs), lambda buf: ctx.call(P.jacobi_sum_clenshaw, other, b + 0.5, a + 0.25, xarg * 0.5, alphas=buf))
             got = call(ctx, n_class(n) + scal, P.jacobi_sum_clenshaw, carg, aarg, barg, xarg, **kw)
+
+            def redo():
+                return ctx.call(P.jacobi_sum_clenshaw, carg, aarg, barg, xarg, **kw)
         else:
             al = call(ctx, n_class(n) + scal, P.jacobi_sum_clenshaw_der, carg, aarg, barg, xarg, j=order_as(j, v))
             ctx.require(np.ndim(al) >= 2 and np.shape(al)[0] == j + 1, 'jacobi_sum_clenshaw_der:shape', 'alphas has shape %s, expected leading dimension j+1=%d' % (np.shape(al), j + 1))
             got = al[0][0]          # "alphas[0,0] will contain the sum of the polynomials"
+
+            def redo():
+                return ctx.call(P.jacobi_sum_clenshaw_der, carg, aarg, barg, xarg, j=order_as(j, v))[0][0]
+
+        def want_now():
+            return hot * sps.eval_jacobi(n, a, b, now64(xarg))
         bucket = '%s:one-coefficient:%s:%s%s%s' % (fn, pcls, 'n=0' if n == 0 else 'n=1' if n == 1 else 'n>=2', scal, bsuf)
         ref = 'scipy.special.eval_jacobi'
     elif not is_q2d:
-        usq = xarg * xarg
+        usq = sq()
         if 'Qcon' in fn:
-            want_full = hot * base ** 4 * sps.eval_jacobi(n, 0, 4, 2 * base * base - 1)
+            def want_at(un):
+                return hot * un ** 4 * sps.eval_jacobi(n, 0, 4, 2 * un * un - 1)
             ref = 'u^4 P_n^(0,4)(2u^2-1)'
         else:
-            xx = base * base
-            want_full = hot * (xx * (1 - xx) * qbfs_table(n, xx) if n <= 5 else np.asarray(ctx.call(P.Qbfs, n, base.copy())))
+            def want_at(un):
+                xx = un * un
+                return hot * (xx * (1 - xx) * qbfs_table(n, xx) if n <= 5 else np.asarray(ctx.call(P.Qbfs, n, un.ravel().copy())).reshape(un.shape))
             ref = "u^2(1-u^2) times Forbes' tabulated polynomial" if n <= 5 else 'Qbfs(n, u) on a float64 vector'
+        want_full = want_at(base)
+
+        def want_now():
+            return want_at(now64(xarg))
         what = '%s(cs = %r at order %d of %d, u: %s %s)' % (fn, hot, n, len(cs), kind, shape_label(shape))
         f = getattr(Q, fn)
         if fn.startswith('compute'):
             if v['pre32']:
-                u32 = as32(xarg)
-                call(ctx, 'float32', f, carg, u32, u32 * u32)
+                with single_session(ctx, v):
+                    u32 = single(v, xarg)
+                    call(ctx, 'float32', f, carg, u32, u32 * u32)
             prefail(ctx, v, f, carg, None, None)
             res = call(ctx, n_class(n) + scal, f, carg, xarg, usq)
             ctx.require(isinstance(res, tuple) and len(res) == 2, fn + ':return', 'expected (z, zprime)')
             got = res[0]
+
+            def redo():
+                return ctx.call(f, carg, xarg, sq())[0]
         elif fn == 'clenshaw_qbfs':
+            if v['pre32']:
+                with single_session(ctx, v):
+                    u32 = single(v, xarg)
+                    call(ctx, 'float32', Q.clenshaw_qbfs, carg, u32 * u32)
             workspace(len(cs), lambda buf: ctx.call(Q.clenshaw_qbfs, other, usq * 0.5, alphas=buf))
             prefail(ctx, v, f, carg, None)
             got = call(ctx, n_class(n) + scal, Q.clenshaw_qbfs, carg, usq, **kw)
+
+            def redo():
+                return ctx.call(Q.clenshaw_qbfs, carg, sq(), **kw)
         else:
+            def from_alphas(al, xf):
+                # documented: S = (x (1 - x)) 2 (alphas[0][0] + alphas[0][1]); a lone Q0 term is evaluated as [c0, 0]
+                return (xf * xf) * (1 - xf * xf) * 2 * (al[0][0] + (al[0][1] if np.shape(al)[1] > 1 else 0))
+            if v['pre32']:
+                with single_session(ctx, v):
+                    u32 = single(v, xarg)
+                    call(ctx, 'float32', Q.clenshaw_qbfs_der, carg, u32 * u32, j=j)
             al = call(ctx, n_class(n) + scal, Q.clenshaw_qbfs_der, carg, usq, j=order_as(j, v))
             ctx.require(np.ndim(al) >= 2 and np.shape(al)[0] == j + 1, 'clenshaw_qbfs_der:shape', 'alphas has shape %s, expected leading dimension j+1=%d' % (np.shape(al), j + 1))
-            # documented: S = (x (1 - x)) 2 (alphas[0][0] + alphas[0][1]); a lone Q0 term is evaluated as [c0, 0]
-            got = (xf * xf) * (1 - xf * xf) * 2 * (al[0][0] + (al[0][1] if np.shape(al)[1] > 1 else 0))
+            got = from_alphas(al, xf)
+
+            def redo():
+                return from_alphas(ctx.call(Q.clenshaw_qbfs_der, carg, sq(), j=order_as(j, v)), now64(xarg))
         bucket = '%s:one-coefficient:%s%s%s' % (fn, 'n=0' if n == 0 else 'n=1' if n == 1 else 'n>=2', scal, bsuf)
     else:
         am = abs(m)
@@ -1409,35 +1545,68 @@ def check_sums(case, ctx):
             targ = present(t, shape, v, layout=v['layout2'], kind=tk)
             what = 'compute_z_zprime_Q2d(coefficient of (n=%d, m=%d) = %r, u: %s %s)' % (n, m, hot, kind, shape_label(shape))
             if v['pre32']:
-                call(ctx, 'float32', Q.compute_z_zprime_Q2d, *cargs, as32(xarg), as32(targ))
+                with single_session(ctx, v):
+                    call(ctx, 'float32', Q.compute_z_zprime_Q2d, *cargs, single(v, xarg), single(v, targ))
             prefail(ctx, v, Q.compute_z_zprime_Q2d, *cargs, None, None)
             res = call(ctx, ('m=0' if m == 0 else 'm!=0') + scal, Q.compute_z_zprime_Q2d, *cargs, xarg, targ)
             ctx.require(isinstance(res, tuple) and len(res) == 3, 'compute_z_zprime_Q2d:return', 'expected (z, dr, dt)')
             got = res[0]
             ref = 'Q2d(n, m, u, t) on float64 vectors'
+            coords = coords + [(targ, -math.pi, 2 * math.pi, True)]
+
+            def redo():
+                return ctx.call(Q.compute_z_zprime_Q2d, *cargs, xarg, targ)[0]
+
+            def want_now():
+                un = now64(xarg)
+                return hot * np.asarray(ctx.call(P.Q2d, n, m, un.ravel(), now64(targ).ravel())).reshape(un.shape)
         else:
             # sum c_n Q_n^m(u^2) from the alpha sums: .5 alphas[0] - 2/5 alphas[3] if m = 1 and N > 2, .5 alphas[0] otherwise; times u^m on the meridian t = 0
             want_full = hot * np.asarray(ctx.call(P.Q2d, n, am, base.copy(), np.zeros_like(base)))
-            usq = xarg * xarg
+            usq = sq()
             marg = order_as(am, v)
             what = '%s(cns = %r at order %d of %d, m=%d, usq: %s %s)' % (fn, hot, n, len(cs), am, kind, shape_label(shape))
+            if v['pre32']:
+                with single_session(ctx, v):
+                    u32 = single(v, xarg)
+                    call(ctx, 'float32', getattr(Q, fn), carg, am, u32 * u32)
+
+            def alpha_rows(usq_, first):
+                if fn == 'clenshaw_q2d':
+                    return (call(ctx, n_class(n) + scal, Q.clenshaw_q2d, carg, marg, usq_, **kw) if first else ctx.call(Q.clenshaw_q2d, carg, marg, usq_, **kw))
+                al = (call(ctx, n_class(n) + scal, Q.clenshaw_q2d_der, carg, marg, usq_, j=order_as(j, v)) if first else ctx.call(Q.clenshaw_q2d_der, carg, marg, usq_, j=order_as(j, v)))
+                ctx.require(np.ndim(al) >= 2 and np.shape(al)[0] == j + 1, 'clenshaw_q2d_der:shape', 'alphas has shape %s, expected leading dimension j+1=%d' % (np.shape(al), j + 1))
+                return al[0]
+
+            def from_rows(rows, xf):
+                ctx.require(np.shape(rows)[:1] == (len(cs),), fn + ':shape', 'alpha sums have shape %s, expected leading dimension %d' % (np.shape(rows), len(cs)))
+                S = 0.5 * rows[0] - 2 / 5 * rows[3] if am == 1 and len(cs) - 1 > 2 else 0.5 * rows[0]
+                return S * xf ** am
             if fn == 'clenshaw_q2d':
                 workspace(len(cs), lambda buf: ctx.call(Q.clenshaw_q2d, other, am + 1, usq * 0.5, alphas=buf))
                 prefail(ctx, v, Q.clenshaw_q2d, carg, marg, None)
-                rows = call(ctx, n_class(n) + scal, Q.clenshaw_q2d, carg, marg, usq, **kw)
-            else:
-                al = call(ctx, n_class(n) + scal, Q.clenshaw_q2d_der, carg, marg, usq, j=order_as(j, v))
-                ctx.require(np.ndim(al) >= 2 and np.shape(al)[0] == j + 1, 'clenshaw_q2d_der:shape', 'alphas has shape %s, expected leading dimension j+1=%d' % (np.shape(al), j + 1))
-                rows = al[0]
-            ctx.require(np.shape(rows)[:1] == (len(cs),), fn + ':shape', 'alpha sums have shape %s, expected leading dimension %d' % (np.shape(rows), len(cs)))
-            S = 0.5 * rows[0] - 2 / 5 * rows[3] if am == 1 and len(cs) - 1 > 2 else 0.5 * rows[0]
-            got = S * xf ** am
+            got = from_rows(alpha_rows(usq, True), xf)
             ref = 'Q2d(n, m, u, 0) on a float64 vector'
+
+            def redo():
+                return from_rows(alpha_rows(sq(), False), now64(xarg))
+
+            def want_now():
+                un = now64(xarg)
+                return hot * np.asarray(ctx.call(P.Q2d, n, am, un.ravel(), np.zeros(un.size))).reshape(un.shape)
         bucket = '%s:one-coefficient:%s%s%s' % (fn, 'm=0' if m == 0 else 'm=1' if am == 1 else 'm>=2', scal, bsuf)
     want = shaped(want_full, shape)
     scale = max(float(np.max(np.abs(want_full))), abs(hot) * 1e-3)
     U.check_shape(got, np.shape(want), bucket, what)
     U.check_close(got, want, rt, bucket, what + ' vs %r times %s' % (hot, ref), atol=rt * scale)
+    # the sums run through memoised tables (recurrence coefficients, f / g / h of Forbes, the change of basis of the coefficients)
+    session_close(ctx, v, got, want, rt, bucket, what + ' (coefficients as %s) vs %r times %s' % (v['cs_as'], hot, ref), scale, factor=SESSION_FACTOR)
+
+    def verify_now(g, b_):
+        w_ = want_now()
+        U.check_shape(g, np.shape(w_), b_, what)
+        U.check_close(g, w_, rt, b_, what + ' vs %r times %s at the values the coordinate arrays hold now' % (hot, ref), atol=rt * scale)
+    edit_check(ctx, v, bucket, coords, redo, verify_now)
 
 
 # ---- slope orthonormality with the slopes taken point by point ----------------------------------------------------------
